@@ -12,7 +12,7 @@ def run(res, replay=None):
     res.rule = ('accumulation stream: random configurations (n<=4, 1-2 demes, three models, 1-3 epochs); relations on the '
                 'implementation at 1e-9: redundant change points inserted at random times, evaluation on a refined grid '
                 '(points on epoch boundaries and beyond the last change included), end time on the object / on the call / '
-                'as accumulation point, additivity of first moments over [0,a],[a,b], monotone raw curves, and the default '
+                'as accumulation point, additivity of first moments over [0,a],[a,b] (incl. a on an epoch boundary and b = 2a), values on evenly spaced dyadic grids through the boundaries vs each time alone, monotone raw curves, and the default '
                 'horizon reaching the infinite-horizon value or logging a warning (incl. weakly connected demes and '
                 'huge population sizes); non-trivial = relations evaluated > 0')
     res.assumptions = []
@@ -34,8 +34,14 @@ def run(res, replay=None):
             rng.shuffle(ts)
             extra = sorted(set(rng.sample([0.125, 0.375, 0.625, 0.875, 1.25, 1.75, 2.5, 4.0], 3)))
             a = rng.choice([0.0, 0.25, 0.5, 1.0])
+            pos = [b for b in bs if b > 0]
+            step = rng.choice([0.125, 0.25])
             cases.append({'spec': s, 'ts': ts, 'extra_times': extra, 'T': rng.choice([0.0, 0.5, 1.0, 2.0, 3.5]),
-                          'window': [a, a + rng.choice([0.25, 0.5, 1.0, 2.0])]})
+                          'window': [a, a + rng.choice([0.25, 0.5, 1.0, 2.0])],
+                          # windows starting exactly on an epoch boundary, as long as the stretch before it
+                          'windows': [[b, 2 * b] for b in pos[:2]],
+                          # evenly spaced dyadic grids: every boundary (multiple of 1/8) is a grid point of the first
+                          'grids': [[step * j for j in range(1, rng.randrange(6, 14))]] + ([[b * j for j in range(1, 5)] for b in pos[:1]])})
     results = orc.run_oracle(res, 'accumulation', cases, chunk=1)
     # accumulation curves on multi-point grids against the Gallina propagation loop, incl. rewards that stall
     # before absorption (isolation then contact; per-population and per-bin rewards)
